@@ -142,11 +142,12 @@ def run_hist(cfg):
             sc = ['garbage']
         s.request(sc)           # no drain: the next request follows at once, as ET.read_runtime_data() does
     letter = 'exc2' if cfg['delay'] == 0 else f"exc@{cfg['delay']}T"
-    s.peer.exc_code = 3         # the explored request is refused with another code than the earlier ones
-    obs = s.request(['drop'] * cfg['k'] + [letter.replace('exc2', 'exc3')], settle=False)
+    code = cfg.get('code', 3)   # 3: another code than the earlier requests were refused with; 2: the very same frame again
+    s.peer.exc_code = code
+    obs = s.request(['drop'] * cfg['k'] + [letter.replace('exc2', f'exc{code}')], settle=False)
     vio = []
     res = obs.result
-    want = wire.exception_reason(3)
+    want = wire.exception_reason(code)
     if res[0] != 'exc' or res[1] != 'RequestRejectedException':
         vio.append(('rejected-exception', f'{res[:2]}'))
     elif res[2] != want:
@@ -173,6 +174,8 @@ def hist_configs(tier):
                         for k in ((0, 1) if R else (0,)):
                             for delay in (0, .4, .8):
                                 yield dict(transport=tr, ka=ka, T=1, R=R, prior=prior, k=k, delay=delay)
+                                if any(x.startswith('rejected') for x in prior):
+                                    yield dict(transport=tr, ka=ka, T=1, R=R, prior=prior, k=k, delay=delay, code=2)
 
 
 def job_hist(cfgs):
@@ -182,7 +185,8 @@ def job_hist(cfgs):
         vio, res = run_hist(cfg)
         n += 1
         for clause, cause in vio:
-            key = f"{clause}/{cfg['transport']}/ka={int(cfg['ka'])}/after:{'+'.join(sorted(set(cfg['prior'])))}"
+            key = f"{clause}/{cfg['transport']}/ka={int(cfg['ka'])}/after:{'+'.join(sorted(set(cfg['prior'])))}" + \
+                ('/same-code-again' if cfg.get('code') == 2 else '')
             out.setdefault(key, []).append(dict(key=key, clause=clause, replay=dict(part='H', cfg=cfg),
                                                 detail=dict(cause=cause, prior=list(cfg['prior']), k=cfg['k'], delay=cfg['delay'])))
     res = []
